@@ -95,6 +95,18 @@ def run(ctx):
     for cls in ("Hypergraph", "DirectedHypergraph", "TemporalHypergraph"):
         with res.guard("RC.check_neighborsctx, res, cls"):
             RC.check_neighbors(ctx, res, cls)
+    # degrees, neighbours and components are read off the incidence lists: "for every history" rests on the joint-update rules
+    # that keep those lists in step with the hyperedge tables when hyperedges / nodes are removed (shared with C01)
+    from ._containers import PATH_RULES
+
+    for r_ in ("P-DEL", "P-DELJOINT", "P-NODE", "P-SHRINK", "P-LOOPVAR", "P-ADJ1"):
+        res.rules[r_] = PATH_RULES[r_]
+    with res.guard("RC.check_remove_edge(ctx, res, Hypergraph)"):
+        RC.check_remove_edge(ctx, res, "Hypergraph")
+    with res.guard("RC.check_remove_node(ctx, res, Hypergraph)"):
+        RC.check_remove_node(ctx, res, "Hypergraph")
+    with res.guard("RC.check_record_deletion_joint(ctx, res, Hypergraph)"):
+        RC.check_record_deletion_joint(ctx, res, "Hypergraph")
 
     # ---- degree = len(filtered incident list of the same node)
     with res.guard("degree = len(filtered incident list of the same node)"):
@@ -103,8 +115,14 @@ def run(ctx):
         if not rets:
             raise AnalysisError("degree.degree: no return")
 
-        def incident_of_node(x):
-            return isinstance(x, ast.Call) and isinstance(x.func, ast.Attribute) and x.func.attr == "get_incident_edges" and x.args and isinstance(x.args[0], ast.Name) and x.args[0].id == "node"
+        def incident_of_node(x, depth=0):
+            if isinstance(x, ast.Call) and isinstance(x.func, ast.Attribute) and x.func.attr == "get_incident_edges" and x.args and isinstance(x.args[0], ast.Name) and x.args[0].id == "node":
+                return True
+            # a local assigned on several branches (one per filter): every definition is the incident list of the node
+            if isinstance(x, ast.Name) and depth < 2:
+                defs = [d.value for d in walk_no_nested(v.fi.node) if isinstance(d, ast.Assign) and any(isinstance(t, ast.Name) and t.id == x.id for t in d.targets)]
+                return bool(defs) and all(incident_of_node(d, depth + 1) for d in defs)
+            return False
 
         for r in rets:
             e = v.inline(r.value)
@@ -120,7 +138,9 @@ def run(ctx):
                 elif isinstance(src, ast.Call) and ctx.callees(v.fi, getattr(src, "_orig", src)):
                     res.unknown("D-LEN", v.fi.short, norm(r), "len(incident)", "the degree counts what a helper yields", loc(v.fi, r))
                     continue
-            related = any(isinstance(x, ast.Call) and ((isinstance(x.func, ast.Name) and x.func.id in ("len", "sum")) or (isinstance(x.func, ast.Attribute) and x.func.attr in ("get_incident_edges", "get_neighbors", "get_edges"))) for x in ast.walk(e))
+            # positively another quantity: the number of neighbours / of all hyperedges / of nodes
+            srcs = [e] + [d.value for x in ast.walk(e) if isinstance(x, ast.Name) for d in walk_no_nested(v.fi.node) if isinstance(d, ast.Assign) and any(isinstance(t, ast.Name) and t.id == x.id for t in d.targets)]
+            related = any(isinstance(x, ast.Call) and isinstance(x.func, ast.Attribute) and x.func.attr in ("get_neighbors", "get_edges", "get_nodes", "num_edges", "num_nodes") for s_ in srcs for x in ast.walk(s_))
             res.add("D-LEN", v.fi.short, norm(r), "len(incident)", "ok" if ok else ("violation" if related else "unknown"), "" if ok else "degree is not the length of the node's (filtered) incident-hyperedge list", loc(v.fi, r))
     # ---- degree_sequence: {node: hg.degree(node, ...) for node in hg.get_nodes()}
     with res.guard("degree_sequence: {node: hg.degree(node, ...) for node in hg.get_nodes()}"):
@@ -130,9 +150,22 @@ def run(ctx):
             it = v.inline(it)
             return isinstance(it, ast.Call) and isinstance(it.func, ast.Attribute) and it.func.attr == "get_nodes" and not it.args and not it.keywords
 
-        def degree_of(val, tgt):
+        def degree_of(val, tgt, depth=0):
+            """'ok' / 'violation' (the degree of ANOTHER node, or another quantity of that node) / 'unknown'"""
             val = v.inline(val)
-            return isinstance(val, ast.Call) and isinstance(val.func, ast.Attribute) and val.func.attr == "degree" and val.args and isinstance(val.args[0], ast.Name) and val.args[0].id == tgt
+            if isinstance(val, ast.Call) and isinstance(val.func, ast.Attribute) and val.func.attr == "degree" and val.args:
+                return "ok" if isinstance(val.args[0], ast.Name) and val.args[0].id == tgt else "violation"
+            if isinstance(val, ast.Call) and isinstance(val.func, ast.Name) and val.func.id == "degree" and len(val.args) >= 2:
+                return "ok" if isinstance(val.args[1], ast.Name) and val.args[1].id == tgt else "violation"
+            if isinstance(val, ast.Name) and depth < 2:
+                # assigned on several branches (one per filter)
+                defs = [d.value for d in walk_no_nested(v.fi.node) if isinstance(d, ast.Assign) and any(isinstance(t, ast.Name) and t.id == val.id for t in d.targets)]
+                sts = {degree_of(d, tgt, depth + 1) for d in defs}
+                return "violation" if "violation" in sts else ("ok" if sts == {"ok"} else "unknown")
+            if isinstance(val, ast.IfExp):
+                sts = {degree_of(val.body, tgt, depth + 1), degree_of(val.orelse, tgt, depth + 1)}
+                return "violation" if "violation" in sts else ("ok" if sts == {"ok"} else "unknown")
+            return "unknown"
 
         forms = []  # (node, iter, filtered?, target name, key expr, value expr)
         for n in walk_no_nested(v.fi.node):
@@ -148,7 +181,9 @@ def run(ctx):
         for c, it, filtered, tgt, key, val in forms:
             res.check(is_get_nodes(it) and not filtered, "D-SEQ", v.fi.short, norm(c)[:160], "all-nodes", "the degree sequence does not range over every node of get_nodes() exactly once", loc(v.fi, c))
             key_ok = isinstance(key, ast.Name) and key.id == tgt
-            res.check(key_ok and degree_of(val, tgt), "D-SEQ", v.fi.short, norm(c)[:160], "same-node", "the degree stored for a node is not degree(<that node>)", loc(v.fi, c))
+            dst = degree_of(val, tgt)
+            st_ = "ok" if key_ok and dst == "ok" else ("violation" if dst == "violation" or (isinstance(key, ast.Name) and not key_ok) else "unknown")
+            res.add("D-SEQ", v.fi.short, norm(c)[:160], "same-node", st_, "" if st_ == "ok" else "the degree stored for a node is not degree(<that node>)", loc(v.fi, c))
         v = ctx.view("degree.degree_distribution")
         augs = [n for n in walk_no_nested(v.fi.node) if isinstance(n, ast.AugAssign) and isinstance(n.target, ast.Subscript)]
         gets = [n for n in walk_no_nested(v.fi.node) if isinstance(n, ast.Assign) and isinstance(n.targets[0], ast.Subscript) and isinstance(n.value, ast.BinOp) and any(isinstance(x, ast.Call) and isinstance(x.func, ast.Attribute) and x.func.attr == "get" for x in ast.walk(n.value))]
@@ -259,11 +294,28 @@ def run(ctx):
                     first = tg.elts[0] if isinstance(tg, ast.Tuple) else tg
                     if isinstance(first, ast.Name):
                         popped.add(first.id)
+            # `entry = queue.popleft(); node = entry[0]`: components of the popped entry
+            changed = True
+            while changed:
+                changed = False
+                for n in walk_no_nested(v.fi.node):
+                    if isinstance(n, ast.Assign) and isinstance(n.targets[0], ast.Name) and n.targets[0].id not in popped and isinstance(n.value, ast.Subscript) and isinstance(n.value.value, ast.Name) and n.value.value.id in popped and isinstance(n.value.slice, ast.Constant) and n.value.slice.value == 0:
+                        popped.add(n.targets[0].id)
+                        changed = True
+                    if isinstance(n, ast.Assign) and isinstance(n.targets[0], ast.Tuple) and isinstance(n.value, ast.Name) and n.value.id in popped and n.targets[0].elts and isinstance(n.targets[0].elts[0], ast.Name) and n.targets[0].elts[0].id not in popped:
+                        popped.add(n.targets[0].elts[0].id)
+                        changed = True
             init_has_start = any(isinstance(n, ast.Assign) and isinstance(n.targets[0], ast.Name) and n.targets[0].id == V and mentions_start(n.value) for n in walk_no_nested(v.fi.node)) or any(
                 isinstance(n, ast.Call) and norm(n.func) in adders and n.args and mentions_start(n.args[0]) and not v.enclosing(n, (ast.For, ast.While, ast.If)) for n in walk_no_nested(v.fi.node)
             )
 
             def is_visited_test(t, x):
+                # `already_visited = node in visited; if not already_visited:`
+                nm = t.operand if isinstance(t, ast.UnaryOp) and isinstance(t.op, ast.Not) else t
+                if isinstance(nm, ast.Name):
+                    r_ = v.resolve(nm)
+                    if isinstance(r_, (ast.Compare, ast.UnaryOp)):
+                        t = ast.UnaryOp(op=ast.Not(), operand=r_) if nm is not t else r_
                 t = t.operand if isinstance(t, ast.UnaryOp) and isinstance(t.op, ast.Not) else t
                 return isinstance(t, ast.Compare) and len(t.ops) == 1 and isinstance(t.ops[0], (ast.In, ast.NotIn)) and norm(t.left) == x and norm(t.comparators[0]) == V
 
@@ -288,6 +340,8 @@ def run(ctx):
                 res.violation("B-START", f, norm(conditional[0]), "start-in-component", "the dequeued node is added to the visited set only under a further condition: the start node can be missing from its own component", loc(v.fi, conditional[0]))
             elif not popped:
                 res.unknown("B-START", f, f"{V}.add(<dequeued node>)", "start-in-component", "the work list seeded with the start node was not identified", loc(v.fi, v.fi.node))
+            elif any(isinstance(n, ast.Call) and norm(n.func) in adders and n.args and not (isinstance(n.args[0], ast.Name) and any(isinstance(l, ast.For) and isinstance(l.target, ast.Name) and l.target.id == n.args[0].id for l in v.enclosing_all(n, (ast.For,)))) for n in walk_no_nested(v.fi.node)):
+                res.unknown("B-START", f, f"{V}.add(<dequeued node>)", "start-in-component", "a node is added to the visited set, but it was not recognised as the dequeued one", loc(v.fi, v.fi.node))
             else:
                 res.violation("B-START", f, f"{V}.add(<dequeued node>)", "start-in-component", "the search never adds the dequeued node itself to the visited set (nodes are only marked when discovered through a hyperedge): a start node without a (filtered) hyperedge yields an EMPTY component instead of the singleton {start}", loc(v.fi, v.fi.node))
     res.assumptions += [
